@@ -301,6 +301,9 @@ def main(argv=None):
     chk.trusted = ["group layer meets its specification: C05 (group law), C06 ([k]P for every 256-bit k), C07 (GT exponentiation), C01/C08 (bilinear pairing, products)",
                    "random scalars and sampled generators are independent uniform: modelled as formal symbols", "z3"]
     chk.assumptions = ["lists are sorted by slot index with distinct indices, slot arrays are sized as the Go/C bindings size them (exactly the new free-slot count)"]
+    # lower layers whose specifications this check relies on: their obligations are part of this check's claim (framework.Check.include)
+    for dep in ['C06', 'C02', 'C04', 'C05', 'C07', 'C01', 'C08', 'C10']:
+        chk.include(dep)
     chk.run()
     chk.finish()
 
